@@ -53,7 +53,7 @@ def is_equal_constant_merge(exc, q, tables):
 
 
 def run_case(ctx, q, tables, route, label, mon):
-    mt = tables[q.table]
+    mt = tables[q.table] if q.table else next(iter(tables.values()))
     conn = engine.connection(tables.values())
     try:
         stmt = ir.to_text(q) if route == 'text' else ir.to_ast(q)
@@ -73,7 +73,7 @@ def run_case(ctx, q, tables, route, label, mon):
         mon.enabled = False
     try:
         mnames, mtypes, mrows = model.run_query(q, tables)
-        q0 = ir.Query(targets=q.targets, table=q.table, where=q.where, group_by=q.group_by, having=q.having)
+        q0 = ir.Query(targets=q.targets, table=q.table, subquery=q.subquery, where=q.where, group_by=q.group_by, having=q.having)
         _, _, unordered = model.run_query(q0, tables)
     except model.ModelError:
         ctx.count('skipped.model_domain')
@@ -203,7 +203,44 @@ def run(ctx):
         random_case(ctx, n, mon)
     for i in range(ctx.pick(6, 80)):
         mixed_type_keys(ctx, ctx.rng('mixed', i))
+    for i in range(ctx.pick(20, 300)):
+        ordered_subquery_case(ctx, i, mon)
     ledger_part(ctx, mon)
+
+
+def ordered_subquery_case(ctx, n, mon):
+    """An ordered sub-query is an ordered table: ORDER BY of the enclosing statement is a stable sort of ITS rows, so ties
+    on the outer keys keep the order the sub-query produced (not the order of the table underneath)."""
+    rng = ctx.rng('ordered-subquery', n)
+    mt = gen.gen_table(rng, 't', max_rows=ctx.pick(14, 30), ties=True)
+    pool = [('i', T_INT), ('j', T_INT), ('s', T_STR), ('b', T_BOOL), ('d', T_DEC), ('dt', T_DATE), ('t', T_STR), ('c', T_BOOL)]
+    cols = rng.sample(pool, 3)
+    inner_targets = [ir.Target(ir.col('k', T_INT))] + [ir.Target(ir.col(c, t), f'n_{c}') for c, t in cols]
+    ikeys = []
+    for c, t in rng.sample(cols, rng.choice([1, 1, 2])):
+        d = rng.choice([None, False, True, True])
+        ikeys.append(ir.Key('name', f'n_{c}', d) if rng.random() < 0.5 else ir.Key('expr', ir.col(c, t), d))
+    if rng.random() < 0.3:
+        ikeys.append(ir.Key('expr', ir.col('k', T_INT), rng.choice([None, True])))
+    inner = ir.Query(targets=inner_targets, table='t', order_by=ikeys)
+    if rng.random() < 0.15:
+        inner.limit = rng.choice([len(mt.rows), len(mt.rows) + 5, max(len(mt.rows) - 2, 1)])
+    if rng.random() < 0.15:
+        inner.distinct = True
+    shown = [ir.Target(ir.col('k', T_INT))] + [ir.Target(ir.col(f'n_{c}', t), None if rng.random() < 0.6 else f'o_{c}')
+                                              for c, t in cols if rng.random() < 0.7]
+    okeys = []
+    for c, t in rng.sample(cols, rng.choice([1, 1, 2])):
+        okeys.append(ir.Key('expr', ir.col(f'n_{c}', t), rng.choice([None, False, True])))
+    outer = ir.Query(targets=shown, subquery=inner, order_by=okeys if rng.random() < 0.85 else None)
+    if rng.random() < 0.25:
+        outer.where = ir.un('isnotnull', ir.col(f'n_{cols[0][0]}', cols[0][1]), T_BOOL)
+    if rng.random() < 0.2:
+        outer.limit = limits_for(rng, len(mt.rows))
+        if outer.limit is not None and outer.limit > 2 ** 62:
+            outer.limit = 10 ** 6
+    run_case(ctx, outer, {'t': mt}, 'text' if rng.random() < 0.15 else 'ast', f'ordered-subquery/{n}', mon)
+    ctx.count('obs.ordered_subquery_cases')
 
 
 def random_case(ctx, n, mon):
@@ -356,6 +393,8 @@ def replay(ctx, case):
     label = (case or {}).get('label', '')
     if label.startswith('random/'):
         random_case(ctx, int(label.split('/')[1]), mon)
+    elif label.startswith('ordered-subquery/'):
+        ordered_subquery_case(ctx, int(label.split('/')[1]), mon)
     else:
         print('replay: exhaustive/ledger case; re-run the check with the same VERIF_SEED. case:', case)
 
